@@ -40,8 +40,8 @@ ASSUME = [
     "summary statistics theorems are over Q with an abstract per-droplet volume/area function (pi and roots are "
     "not rational); np.std is stated as variance",
 ]
-RULE = ("operation sequences over the 28-operation language of Model.Heap: exhaustive over a 16-letter alphabet "
-        "after a fixed 8-operation prefix (all sequences up to the tier's length), plus random sequences of length "
+RULE = ("operation sequences over the 35-operation language of Model.Heap: exhaustive over an 18-letter alphabet "
+        "after a fixed 9-operation prefix (all sequences up to the tier's length), plus random sequences of length "
         "<= 40 over all five droplet classes; distinct = distinct operation sequences; non-trivial = the sequence "
         "contains at least one operation that succeeds and changes a collection")
 
@@ -658,6 +658,8 @@ ALPHABET = [
     ("TcCopy", 0),                          # copy constructor
     ("TlistAppend", 0, 9.0),                # the caller mutates its own list of times
 ]
+# 14 letters for the length-4 enumeration of the thorough tier
+ALPHABET4 = [a for a in ALPHABET if a[0] not in ("Add", "Copy", "RemoveSmall", "TcAppendBad")]
 ALPHABET_EXTRA = [("TrSlice", 0, 0, 2), ("TrAppendBad", 0), ("Get", 0, 1), ("RemoveOverlap", 0, ()), ("TrCopy", 0),
                   ("TlistSet", 0, 0, 4.0), ("TrAppend", 0, 0, None)]
 
@@ -1007,6 +1009,7 @@ class RefModel:
         self.T = []          # [times, [index into E]]
         self.K = []          # [times, [values]]
         self.L = []          # [indices into K]
+        self.TV = []         # the caller's own lists of times (values)
         self.nA = 0
 
     @staticmethod
@@ -1174,6 +1177,40 @@ class RefModel:
             ks = L[op[1]]
             L[op[1]] = [k for k in ks
                         if not ((K[k][0][-1] - K[k][0][0] if K[k][0] else 0) <= Fraction(op[2]))]
+        elif n == "TcCopy":
+            tc = T[op[1]]
+            if len(tc[0]) != len(tc[1]):
+                raise ValueError
+            base = len(E)
+            for c in tc[1]:
+                self._new_em(E[c][1])
+            T.append([list(tc[0]), list(range(base, base + len(tc[1])))])    # times are copied
+        elif n == "TcNewL":
+            ems = [E[c] for c in op[1]]
+            ts = list(self.TV[op[2]])                                         # the CONTENT of the caller's list
+            if len(ts) != len(ems):
+                raise ValueError
+            base = len(E)
+            for e in ems:
+                self._new_em(e[1])
+            T.append([ts, list(range(base, base + len(ems)))])
+        elif n == "TrCopy":
+            tr = K[op[1]]
+            if len({len(v[1]) for v in tr[1]}) > 1 or len(tr[0]) != len(tr[1]):
+                raise ValueError
+            K.append([list(tr[0]), list(tr[1])])
+        elif n == "TrNewL":
+            vs = [H[i] for i in op[1]]
+            ts = list(self.TV[op[2]])
+            if len({len(v[1]) for v in vs}) > 1 or len(ts) != len(vs):
+                raise ValueError
+            K.append([ts, vs])
+        elif n == "TlistNew":
+            self.TV.append([Fraction(t) for t in op[1]])
+        elif n == "TlistAppend":
+            self.TV[op[1]].append(Fraction(op[2]))
+        elif n == "TlistSet":
+            self.TV[op[1]][op[2]] = Fraction(op[3])
         elif n == "WriteA":
             raise NotImplementedError        # handled by the oracle directly (alias by design)
         else:
@@ -1182,12 +1219,12 @@ class RefModel:
     def contents(self):
         return {"hnd": list(self.H), "ems": [(e[0], list(e[1])) for e in self.E],
                 "tcs": [(list(t[0]), list(t[1])) for t in self.T], "trs": [(list(k[0]), list(k[1])) for k in self.K],
-                "tls": [list(l) for l in self.L]}
+                "tls": [list(l) for l in self.L], "tvars": [list(x) for x in self.TV]}
 
 
 def world_contents(w):
     d = w.dump()
-    return {k: d[k] for k in ("hnd", "ems", "tcs", "trs", "tls")}, d
+    return {k: d[k] for k in ("hnd", "ems", "tcs", "trs", "tls", "tvars")}, d
 
 
 def _close(a, b, scale):
@@ -1376,12 +1413,12 @@ def oracle_run(ops, rng=None, queries=True):
             if exp != oc:
                 return f"{where}: outcome {oc}, list model expects {exp}"
             mc = m.contents()
-            for key in ("hnd", "ems", "tcs", "trs", "tls"):
+            for key in ("hnd", "ems", "tcs", "trs", "tls", "tvars"):
                 if mc[key] != cont[key]:
                     return f"{where}: {key} differ from the list model: implementation {cont[key]!r} model {mc[key]!r}"
-        # alignment after EVERY operation, failed ones included
+        # alignment after EVERY operation, failed ones included, for ALL live collections
         for ti, tc in enumerate(w.T):
-            if len(tc.times) != len(tc.emulsions):
+            if len(tc.times) != len(tc.emulsions) or len(tc) != len(tc.emulsions):
                 return f"{where}: T[{ti}] has {len(tc.times)} times but {len(tc.emulsions)} emulsions"
         for ki, k in enumerate(w.K):
             if len(k.times) != len(k.droplets):
@@ -1394,6 +1431,15 @@ def oracle_run(ops, rng=None, queries=True):
         if dump["stosig"][:len(pos)] != list(range(len(pos))):
             i = next(i for i, x in enumerate(dump["stosig"][:len(pos)]) if x != i)
             return f"{where}: droplet at position {i} shares its data with position {dump['stosig'][i]}"
+        # ... and every collection owns its list of times: no list object is held by two collections or by a
+        # collection and the caller
+        nT, nK = len(w.T), len(w.K)
+        if dump["tlsig"] != list(range(len(dump["tlsig"]))):
+            i = next(i for i, x in enumerate(dump["tlsig"]) if x != i)
+
+            def who(p):
+                return f"T[{p}]" if p < nT else (f"K[{p - nT}]" if p < nT + nK else f"the caller's list TV[{p - nT - nK}]")
+            return f"{where}: {who(i)} and {who(dump['tlsig'][i])} hold the same list of times"
         ids = [id(e) for e in w.E]
         if len(set(ids)) != len(ids):
             return f"{where}: one Emulsion object is referenced twice (stored emulsion is not a copy)"
@@ -1470,6 +1516,11 @@ CORPUS = [
               ("TcAppendBad", 0), ("TcSlice", 0, 0, 2), ("TrAppend", 0, 0, None), ("TrAppendBad", 0),
               ("TrSlice", 0, 0, 2), ("Append", 0, 1, True, True), ("RemoveSmall", 0, 1.0), ("RemoveOverlap", 0, ()),
               ("TlNew", (0, 1)), ("TlRemoveShort", 0, 0.5), ("TcClear", 0)],
+    # copy constructors and caller-owned lists of times: edit the copy / the caller's list, the source must not move
+    [("New", VA), ("EmNew",), ("Append", 0, 0, True, False), ("TcNew", (0, 0, 0), (0.0, 10.0, 20.0)), ("TcCopy", 0),
+     ("TcAppend", 1, 0, 99.0, True), ("TlistNew", (0.0, 1.0)), ("TcNewL", (0, 0), 0), ("TcAppend", 2, 0, None, True),
+     ("TlistAppend", 0, 5.0), ("TlistSet", 0, 0, 7.0), ("TrNewL", (0, 0), 0), ("TrNew", (0,), (3.0,)), ("TrCopy", 1),
+     ("TrAppend", 2, 0, None), ("TrAppend", 1, 0, 8.0), ("TcSlice", 0, 0, 2), ("TcAppend", 3, 0, -1.0, True)],
 ]
 
 
@@ -1521,10 +1572,10 @@ def check(ctx: vlib.Ctx) -> int:
     # ---- (b1) exhaustive sequences after the fixed prefix
     if ok:
         maxlen = ctx.scale(3, 4)
-        alpha3 = ALPHABET                    # 16 letters up to length 3
+        alpha3 = ALPHABET                    # 18 letters up to length 3
         d0, out = exhaustive_cases(alpha3, 3)
         if maxlen >= 4:
-            d0b, out4 = exhaustive_cases(ALPHABET[:14], 4)
+            d0b, out4 = exhaustive_cases(ALPHABET4, 4)
             out = out + [x for x in out4 if len(x[0]) == 4]
         cases = []
         for seq, done, obs in out:
